@@ -11,6 +11,21 @@ ALIAS_FORMS = ["ldi {R}, 1", "subi {R}, 1", "sbci {R}, 1", "andi {R}, 1", "ori {
                ".device ATtiny20\n lds {R}, 0x60", ".device ATtiny20\n sts 0x60, {R}"]
 
 
+def rebound_alias_cases():
+    """def, .undef (written in another letter case), def to a register of ANOTHER class, use: the verdict is that of the register
+    the alias is bound to NOW"""
+    out = []
+    for f in ALIAS_FORMS:
+        if "\n" in f:
+            continue
+        for old, new in ((20, 4), (4, 20), (24, 25), (25, 24), (16, 15), (0, 31), (17, 1), (30, 29)):
+            plain = " %s\n" % f.replace("{R}", "r%d" % new)
+            for a1, a2, a3 in (("tmp", "Tmp", "tmp"), ("Tmp", "TMP", "tmp"), ("T", "t", "T")):
+                aliased = ".def %s = r%d\n.undef %s\n.def %s = r%d\n %s\n" % (a1, old, a2, a1, new, f.replace("{R}", a3))
+                out.append((plain, aliased))
+    return out
+
+
 def alias_cases():
     out = []
     for n in range(32):
@@ -47,7 +62,7 @@ def run(res):
     from . import common as C
     vh = C.build_harness("debug")
     exe = C.build_model()
-    pairs = alias_cases()
+    pairs = alias_cases() + rebound_alias_cases()
     obs = P.correspond(res, vh, exe, [p[0] for p in pairs] + [p[1] for p in pairs], "register-alias statements")
     for plain, aliased in pairs:
         a, b = progrun.parse_obs(obs[plain][0]), progrun.parse_obs(obs[aliased][0])
